@@ -17,4 +17,4 @@ for c in $checks; do
   echo "RESULT check=$c rc=$rc $(echo "$out" | grep -a "$c quick:" | tail -1) $sig"
 done
 # replays created by a mutant run are not regressions of the real tree
-git -C /verif clean -fdq replays/
+for c in $checks; do git -C /verif clean -fdq replays/$c; done
